@@ -26,7 +26,8 @@ RULE = (
     " op mix are swarm-chosen; ops are put(i,c)=cost[i]=c+insert(i) of an id that is not queued (never queued, or removed"
     " earlier), upd(i,c)=update on a never-queued id or an"
     " improving/equal update of a queued id, pop, plus the fault ops pop-on-empty and insert-on-full; every"
-    " history ends with a drain and one extra pop. real arm: one fit of a supervised / semi-supervised /"
+    " history ends with a drain and one extra pop. duo arm: two or three heaps alive at once with interleaved operations."
+    " real arm: one fit of a supervised / semi-supervised /"
     " KNN-supervised / unsupervised model on a small world with a recording Heap subclass installed; every op"
     " the model issues is checked online. A history is non-trivial when it has >= 2 successful removals and"
     " >= 1 update of an element that was queued at the time; distinct = distinct (capacity, policy, op kinds,"
